@@ -251,6 +251,27 @@ void run_case(Choices &c, Ctx &ctx)
 	ctx.note("text=" + quote(text, 1200));
 	ctx.note("denotes " + show(ref.v, 500));
 	check_text(ctx, text, ref, nt, hash_str(text));
+	if (c.coin(6) && !(ref.has_nul_key && ctx.kf("nul-in-member-name")) && parse_fresh(text, 0, JSON_TOKENER_DEFAULT_DEPTH, false).err == json_tokener_success)
+	{
+		// the same valid text through the descriptor / file entry points (real kernel objects: memory file, packet pipe,
+		// the pipe opened by path). Texts that an exact-length call leaves "incomplete" (a bare number) are skipped.
+		int how = (int)c.pickn(4);
+		size_t piece = 1 + c.pickn(c.coin(50) ? 8 : 3000);
+		json_object *o = nullptr;
+		if (parse_via_fd(text, how, piece, &o))
+		{
+			static const char *hn[] = {"json_object_from_fd on a memory file", "json_object_from_fd on a pipe delivering short reads",
+			                           "json_object_from_file on a pipe (size 0)", "json_object_from_file on a memory file"};
+			Val got = dump(o);
+			bool has = o != nullptr;
+			json_object_put(o);
+			std::string why;
+			if (has != (ref.v.k != Val::Null) || !same_val(ref.v, got, why, DBL_JUDGE))
+				ctx.fail("fd-entry", std::string(hn[how]) + (has ? " returns another value: " + why : std::string(" rejects a valid text: ") + (json_util_get_last_err() ? json_util_get_last_err() : "")) +
+				                         " (pieces of " + str(piece) + " bytes) text=" + quote(text, 300));
+			ctx.label("via_descriptor_entry_points");
+		}
+	}
 	leak.check(ctx);
 }
 #include "engine_main.hpp"
